@@ -65,4 +65,14 @@ theorem tie_store_owned_candidates {T DB : Type} (shardOf : DB → Nat → List 
   rw [fold_collect (fun i => mapGet (shardOf db i) i) _ (fun tv i t h => by simp only [h]) (fun tv i h => by simp only [h]) ids []]
   simp
 
+/-- **`merge_external` routes one `Merge` command to the executor of the destination id** (`get_executor`, tied in
+`Tie/StoreMap.lean` to `id % num_shards`), carrying the destination, the source track, the class list — empty when `None` was
+given, which the worker reads as "all classes of the source" — and the merge-history flag -/
+theorem tie_store_merge_external_send {T : Type} (getExecutor : Nat → Nat) (sent : List (Nat × Nat × T × List Nat × Bool))
+    (dest : Nat) (src : T) (classes : Option (List Nat)) (mh : Bool) :
+    store_merge_external_send getExecutor sent dest src classes mh =
+      sent ++ [(getExecutor dest, dest, src, classes.getD [], mh)] := by
+  unfold store_merge_external_send
+  cases classes <;> rfl
+
 end SimVerif.Tie
